@@ -99,6 +99,16 @@ CLAIMED = {
              "the oracle but has no theorem of its own.",
         technique="Coq proof by induction over request lists + differential correspondence with scripted bus",
         ref="7/C12"),
+    "C28": dict(
+        text="Theorems C28_tx_exactly_once_in_order, C28_rx_exactly_once_in_order, C28_kept_until_ack, C28_one_toggle_per_chunk, C28_invariant: an invariant over "
+             "EVERY history of application writes and cycles, for every timing of the terminal (oracle: init reaction, accept delay, announcements), both "
+             "directions active at once, proved by induction over the event list (exhaustive case analysis of one cycle inside Coq). Tied to serial.Serial by "
+             "running the real device (real pipes, real TerminalVar/PacketVar descriptors on a frame buffer) against a Python twin of the modelled terminal "
+             "and comparing the complete state after every event.",
+        note=TB + "Modelled: Serial.update, os.read(...,22) on the out pipe, the EL6002 handshake (Dev/Serial.v `react`: the terminal never re-announces before an "
+             "acknowledge and hands nothing over before initialisation completed - this terminal model is trusted). Every cyclic frame is assumed to come back.",
+        technique="Coq invariant proof over all histories + state-by-state differential correspondence",
+        ref="7/C28"),
 }
 
 REASONS_NOT_YET = "no check built yet in this round (planned, see DESIGN.md section 7); nothing is claimed for it"
